@@ -42,7 +42,10 @@ class Lab:
     def _on_post(self, wire):
         if wire.src == 'provider':
             self.ref.point('send')
-            self.wire.append(self.mdib.mdib_version)
+            # the MdibVersion the notification is labelled with
+            import re
+            mt = re.search(rb'MdibVersion="(\d+)"', wire.data)
+            self.wire.append(int(mt.group(1)) if mt else self.mdib.mdib_version)
         return None
 
     # ------------------------------------------------------------------ operations
